@@ -243,6 +243,8 @@ class Verdict:
 
 def write_evidence(pid, tier, level, coverage, wall, violations, assumptions):
     os.makedirs(EVID, exist_ok=True)
+    if os.environ.get("VERIF_DEV_SKIP_MODELS"):
+        return None                      # development runs never overwrite evidence
     ev = dict(property_id=pid, tier=tier, seed=seed(), level=level, coverage=coverage,
               assumptions=assumptions, wall_s=round(wall, 2), violations=violations)
     with open(os.path.join(EVID, pid + ".json"), "w") as f:
